@@ -247,12 +247,43 @@ def run(tier: str, seed: int) -> int:
         if cls is None or cls._metadata.tag.value != t:
             res.spec_failures.append({"class": cname, "expected_tag": t, "what": "CBOR tag number differs from the registry"})
     tag_behaviour(res, order, dict(reg["tags"]))
+    unregistered_codes(res, order, spaces)
     res.notes["not_in_registry"] = sorted(set(not_in_registry))
     res.notes["key_spaces"] = {k: len(v[2]) for k, v in spaces.items()}
     res.sample({"space": "SuitDirective", "name": "suit-directive-fetch", "desc": {"suit-directive-fetch": []}, "wire": "8215" "00"})
     res.exhaustive = True
     drv.close()
     return finish(res, st, RULE, NOTE)
+
+
+def unregistered_codes(res, order, spaces):
+    """parse direction, integers that are no code of a key space (all of -80 .. 80 and the codes of the other spaces): a closed key space rejects
+    them - never rendered under some registered name, never silently dropped"""
+    import cbor2
+    every = sorted({c for sp in spaces.values() for c in sp[2].values()} | set(range(-80, 81)))
+    for sp, entry in spaces.items():
+        ci, kind, names = entry[0], entry[1], entry[2]
+        cls = order[ci]
+        if kind == "keyValue" and getattr(cls._metadata, "embedded", None):
+            continue            # an open map (the envelope: unknown keys are integrated payloads)
+        registered = set(names.values())
+        own = next(iter(names.items()), None)
+        for code in every:
+            if code in registered:
+                continue
+            items = {"enum": [code], "keyValueTuple": [[code, 0], [code, [1]], [code, None]], "keyValue": [{code: 0}, {code: b"\x00"}, {code: None}]}[kind]
+            for it in items:
+                try:
+                    o = cls.from_cbor(cbor2.dumps(it))
+                    shown = o.to_obj()
+                except BaseException:  # noqa
+                    continue
+                res.spec_failures.append({"space": sp, "code": code, "item": cbor2.dumps(it).hex(), "rendered_as": json.dumps(shown, default=str)[:200],
+                                          "what": "an integer that is no code of this key space is accepted on parse "
+                                                  + ("and rendered under a registered name" if shown else "and silently dropped")})
+                break
+        res.case(["unregistered-codes", sp], nontrivial=True)
+        res.count("decode:unregistered-code-sweeps")
 
 
 def tag_behaviour(res, order, tags):
